@@ -7,7 +7,7 @@
    fresh contender gets the lock at its first non-blocking attempt.              *)
 From Coq Require Import List Arith NArith Bool Lia ZifyBool.
 Import ListNotations.
-Require Import Aiuti.FLock Aiuti.FLockInv Aiuti.FLockTL Aiuti.FLockFD Aiuti.FLockMutex Aiuti.FLockExec.
+Require Import Aiuti.FLock Aiuti.FLockInv Aiuti.FLockTL Aiuti.FLockFD Aiuti.FLockMutex Aiuti.FLockExact Aiuti.FLockExec.
 Local Arguments Nat.max : simpl never.
 Arguments upd : simpl never.
 Arguments enter_tlrel : simpl never.
@@ -211,3 +211,22 @@ Theorem mutex_after_crash_lemma :
     let s := run (init_cfg ocfg tcfg fl) (evs1 ++ ECrash p :: evs2) in
     viol s = false -> inside_b s t1 = true -> inside_b s t2 = true -> t1 = t2.
 Proof. intros ocfg tcfg fl evs1 p evs2. apply mutex_lemma. Qed.
+
+(* ---------- quiescence (no crash involved): the end-of-run probe of the line-level runs ------------------ *)
+
+(* every thread idle, nobody inside, inside the contract: a fresh non-blocking (or any) acquire by an idle
+   thread of a live process on an object of its own succeeds at its first attempt *)
+Theorem quiescent_acquirable_lemma :
+  forall ocfg tcfg fl evs tF oF m blk tm poll skip fuel,
+    let s := run (init_cfg ocfg tcfg fl) evs in
+    viol s = false ->
+    (forall t, t_pc (thr s t) = PIdle /\ t_cs (thr s t) = []) ->
+    dead s (t_proc (thr s tF)) = false -> o_proc (objs s oF) = t_proc (thr s tF) ->
+    faulty s KOpen = false -> faulty s KLock = false -> 4 <= fuel ->
+    snd (do_call fuel s tF (CAcq oF m blk tm poll skip)) = RTrue.
+Proof.
+  intros ocfg tcfg fl evs tF oF m blk tm poll skip fuel s Hv Hq Hal Hpr Hfo Hfl Hfu.
+  destruct (quiescent_clean_lemma ocfg tcfg fl evs Hv Hq) as [Hobj Hh]. fold s in Hobj, Hh.
+  destruct (Hobj oF) as (A & B & _). destruct (Hq tF) as [P _].
+  apply acquire_free; auto.
+Qed.
